@@ -122,6 +122,10 @@ pub fn exec_c04(plan: &C04Plan, st: &mut Stats) -> Option<Violation> {
     // rejection of a valid picture is not judged (acceptance still is).
     let mut tainted = false;
     let mut deferred: Vec<Clause3> = Vec::new();
+    // accepted non-disposable pictures since (and including) the last accepted intra
+    // picture: all a decoder needs in order to hold the model's reference
+    let mut essential: Vec<Vec<u8>> = Vec::new();
+    let mut lost: Vec<LostRef> = Vec::new();
     for (si, step) in plan.steps.iter().enumerate() {
         st.add("steps", 1);
         let before = snap_last(&slot.state);
@@ -197,9 +201,16 @@ pub fn exec_c04(plan: &C04Plan, st: &mut Stats) -> Option<Violation> {
                             deferred.push(Clause3 { step: si, note: p.note.clone(), accepted: calls_before, p_variant: encode(&ps).0, disposable_result: None, err: o.short() });
                         }
                         // Whether a valid picture is accepted at all is C02/C03's business, not
-                        // C04's (which speaks about what happens to accepted and rejected pictures).
-                        if !tainted && m_ref.as_ref().map(|r| (r.width, r.height) == (s.width, s.height)).unwrap_or(true) {
-                            st.inc("valid_picture_rejected_not_judged");
+                        // C04's.  But a predicted picture that is rejected HERE although a fresh
+                        // decoder holding nothing but the model's reference (the accepted
+                        // non-disposable pictures since the last intra picture) accepts it was
+                        // rejected because disposable pictures, rejected pictures or clean-ups
+                        // altered the reference: that is C04.  Evaluated after the history.
+                        if !tainted && m_ref.as_ref().map(|r| (r.width, r.height) == (s.width, s.height)).unwrap_or(false) {
+                            st.inc("valid_picture_rejected");
+                            if s.ptype != PType::I && lost.len() < 4 {
+                                lost.push(LostRef { step: si, note: format!("{}: {}", p.note, o.short()), chain: essential.clone(), bytes: p.bytes.clone() });
+                            }
                         }
                     }
                     continue;
@@ -270,6 +281,12 @@ pub fn exec_c04(plan: &C04Plan, st: &mut Stats) -> Option<Violation> {
                         tainted = true;
                     }
                 }
+                if hdr.ptype == "IFrame" {
+                    essential.clear();
+                }
+                if !disposable {
+                    essential.push(p.bytes.clone());
+                }
                 // model transition (C04 rule), from the REAL decoder's observable output
                 if !disposable {
                     m_ref = Some(now.clone());
@@ -288,6 +305,39 @@ pub fn exec_c04(plan: &C04Plan, st: &mut Stats) -> Option<Violation> {
                     }
                 }
             }
+        }
+    }
+    if !lost.is_empty() {
+        let opts = plan.opts;
+        let lost2 = lost.clone();
+        let verdicts = std::thread::spawn(move || {
+            lost2
+                .iter()
+                .map(|l| {
+                    let mut s = Slot::new(opts);
+                    for b in &l.chain {
+                        s.new_reader();
+                        s.feed(b);
+                        if !s.decode().is_ok() {
+                            return false;
+                        }
+                    }
+                    s.new_reader();
+                    s.feed(&l.bytes);
+                    s.decode().is_ok()
+                })
+                .collect::<Vec<bool>>()
+        })
+        .join()
+        .unwrap_or_default();
+        for (l, accepted_by_minimal) in lost.iter().zip(verdicts.iter()) {
+            if *accepted_by_minimal {
+                return viol(
+                    "predicted picture rejected although the last non-disposable picture should be its reference",
+                    format!("step {} ({}); a fresh decoder given only the {} accepted non-disposable picture(s) since the last intra picture accepts it: the reference was lost or altered by the disposable / rejected pictures or clean-ups in between", l.step, l.note, l.chain.len()),
+                );
+            }
+            st.inc("valid_picture_rejected_also_by_a_minimal_decoder_not_judged");
         }
     }
     if deferred.is_empty() || calls.len() > 3000 {
@@ -346,6 +396,14 @@ pub fn exec_c04(plan: &C04Plan, st: &mut Stats) -> Option<Violation> {
         }
     }
     None
+}
+
+#[derive(Clone)]
+struct LostRef {
+    step: usize,
+    note: String,
+    chain: Vec<Vec<u8>>,
+    bytes: Vec<u8>,
 }
 
 struct Clause3 {
